@@ -1,0 +1,21 @@
+//go:build verif
+
+package actor
+
+// Verification seam H3 (build tag verif): every message a reliable-delivery
+// controller sends leaves through its tell method; a simulator can take
+// ownership of such a message there to drop, delay, duplicate or reorder the
+// controller-to-controller traffic. Unless ReliableSimFabric is set the
+// behaviour is unchanged.
+
+const reliableSimEnabled = true
+
+// ReliableSimFabric, when set, is offered every message a controller is about
+// to send. Returning true means the fabric took ownership of the message: it
+// delivers it later (or never) by calling self.Tell itself.
+var ReliableSimFabric func(self, to *PID, message any) bool
+
+func reliableSimIntercept(self, to *PID, message any) bool {
+	f := ReliableSimFabric
+	return f != nil && f(self, to, message)
+}
